@@ -25,6 +25,11 @@ type vC02Case struct {
 	Reqs []vReqSpec `json:"reqs"`
 	// Probe: after the requests, one raw 0x401 stream and one datagram (the connection may or may not be authenticated)
 	Probe bool `json:"probe"`
+	// K == "gate" (c02gate_test.go): Reqs are sent first, then First (an auth request whose Authenticate call is held by the
+	// harness), Win arrives while it is held, then the release, then Post.
+	First *vReqSpec `json:"first"`
+	Win   []vWinOp  `json:"win"`
+	Post  []vWinOp  `json:"post"`
 }
 
 type vC02Res struct {
@@ -83,7 +88,7 @@ func vRunC02(cs vC02Case) (out vC02Out) {
 			out.Err = fmt.Sprint("harness panic: ", r)
 		}
 	}()
-	e, err := vStartServer(cs.Cfg)
+	e, err := vStartServer(cs.Cfg, nil)
 	if err != nil {
 		out.Err = "server: " + err.Error()
 		return
@@ -237,7 +242,12 @@ func TestVerifC02(t *testing.T) {
 		go func(i int, cs vC02Case) {
 			defer wg.Done()
 			defer func() { <-sem }()
-			o := vRunC02(cs)
+			var o vC02Out
+			if cs.K == "gate" {
+				o = vRunC02Gate(cs)
+			} else {
+				o = vRunC02(cs)
+			}
 			o.I = i
 			if o.Err != "" {
 				o.OK = false
